@@ -11,6 +11,10 @@ PY = 'pytype/directors/directors.py'
 
 
 def build():
+  return [build_lineset(), build_director()]
+
+
+def build_lineset():
   T = Theory('C03')
   Lines = S.DictOf(S.INT, S.BOOL)
   Trans = S.Seq(S.INT)
@@ -100,6 +104,150 @@ def build():
   return T
 
 
+LS_FIELDS = [('_lines', S.DictOf(S.INT, S.BOOL)), ('_transitions', S.Seq(S.INT))]
+
+
+def build_director():
+  """Second theory: Director._process_disable / _adjust_line_number_for_pytype_directive / filter_error.
+
+  Here a _LineSet is a value (record) held in the Director's dict; its methods are used through their
+  contracts only -- the clauses proved in the first theory, restated over the view `member`."""
+  T = Theory('C03')
+  Lines, Trans = LS_FIELDS[0][1], LS_FIELDS[1][1]
+  LS = S.Rec('LineSet', LS_FIELDS)
+  T.bind_rec(PY, '_LineSet', LS)
+  ZT = Trans.z3()
+  bpos = z3.Function('bisect_right', ZT, z3.IntSort(), z3.IntSort())
+  inc = z3.Function('strictly_increasing', ZT, z3.BoolSort())
+  s_ = z3.Const('s', ZT)
+  j, k = z3.Ints('j k')
+  at, ln = Trans.at, Trans.len
+  T.axioms += [z3.ForAll([s_], inc(s_) == z3.ForAll([j, k], z3.Implies(z3.And(0 <= j, j < k, k < ln(s_)), at(s_, j) < at(s_, k))),
+                         patterns=[inc(s_)])]
+
+  def member(v, kk):
+    lines, tr = LS.field('_lines', v.t), LS.field('_transitions', v.t)
+    return z3.If(Lines.has(lines, kk), Lines.get(lines, kk), bpos(tr, kk) % 2 == 1)
+  B = lambda nm, f: Builtin(nm, f, needs_ex=True)
+  T.symbols['member'] = B('member', lambda ex, a, k_, n: V(S.BOOL, member(ex.coerce(a[0], LS), ex.as_int(a[1]))))
+  T.symbols['RI'] = B('RI', lambda ex, a, k_, n: V(S.BOOL, inc(LS.field('_transitions', ex.coerce(a[0], LS).t))))
+  T.symbols['has_line'] = B('has_line', lambda ex, a, k_, n: V(S.BOOL, Lines.has(LS.field('_lines', ex.coerce(a[0], LS).t), ex.as_int(a[1]))))
+  ELog = S.Uninterp('ErrorLogRef')
+  LRange = S.Uninterp('LineRange')
+  Err = S.Uninterp('ErrorObj')
+  FR = S.Uninterp('BlockRanges')
+  valid = z3.Function('is_valid_error_name', S.STR.z3(), z3.BoolSort())
+  start_line = z3.Function('start_line', LRange.z3(), z3.IntSort())
+  is_call = z3.Function('is_call_range', LRange.z3(), z3.BoolSort())
+  T.method_models[(ELog.name, 'is_valid_error_name')] = lambda ex, recv, a, k_: V(S.BOOL, valid(ex.coerce(a[0], S.STR).t))
+  from engine.values import NONE
+  T.method_models[(ELog.name, 'invalid_directive')] = lambda ex, recv, a, k_: NONE   # logging of a malformed directive: no effect on the line sets
+  T.attr_models[(LRange.name, 'start_line')] = lambda ex, v: V(S.INT, start_line(v.t))
+  T.attr_models[(LRange.name, 'isinstance:Call')] = lambda ex, v: is_call(v.t)
+  e_name = z3.Function('error_name', Err.z3(), S.STR.z3())
+  e_file = z3.Function('error_filename', Err.z3(), S.Opt(S.STR).z3())
+  e_line = z3.Function('error_line', Err.z3(), S.Opt(S.INT).z3())
+  e_op = z3.Function('error_opcode_name', Err.z3(), S.Opt(S.STR).z3())
+  T.attr_models[(Err.name, 'name')] = lambda ex, v: V(S.STR, e_name(v.t))
+  T.attr_models[(Err.name, 'filename')] = lambda ex, v: V(S.Opt(S.STR), e_file(v.t))
+  T.attr_models[(Err.name, 'opcode_name')] = lambda ex, v: V(S.Opt(S.STR), e_op(v.t))
+  # error.line is read, possibly rewritten by set_line(end), and read again: ghost variable `cur_line`
+  OptI = S.Opt(S.INT)
+  T.attr_models[(Err.name, 'line')] = lambda ex, v: ex.env['cur_line'] if 'cur_line' in ex.env else V(OptI, e_line(v.t))
+  T.symbols['line0'] = B('line0', lambda ex, a, k_, n: V(OptI, e_line(a[0].t)))
+  T.symbols['line_now'] = B('line_now', lambda ex, a, k_, n: ex.env['cur_line'] if 'cur_line' in ex.env else V(OptI, e_line(a[0].t)))
+
+  def set_line(ex, recv, a, k_):
+    ex.env['cur_line'] = ex.coerce(a[0], S.Opt(S.INT))
+    return NONE
+  T.method_models[(Err.name, 'set_line')] = set_line
+  fo_end = z3.Function('find_outermost_end', FR.z3(), z3.IntSort(), S.Opt(S.INT).z3())
+  fo_start = z3.Function('find_outermost_start', FR.z3(), z3.IntSort(), S.Opt(S.INT).z3())
+  from engine.values import PyTuple
+  T.method_models[(FR.name, 'find_outermost')] = lambda ex, recv, a, k_: PyTuple([
+      V(S.Opt(S.INT), fo_start(recv.t, ex.as_int(a[0]))), V(S.Opt(S.INT), fo_end(recv.t, ex.as_int(a[0])))])
+  T.symbols['implicit_return_end'] = B('implicit_return_end', lambda ex, a, k_, n: V(S.Opt(S.INT), fo_end(a[0].t, ex.as_int(a[1]))))
+  T.symbols['start_line'] = B('start_line', lambda ex, a, k_, n: V(S.INT, start_line(a[0].t)))
+  T.symbols['is_call'] = B('is_call', lambda ex, a, k_, n: V(S.BOOL, is_call(a[0].t)))
+  T.symbols['valid_name'] = B('valid_name', lambda ex, a, k_, n: V(S.BOOL, valid(ex.coerce(a[0], S.STR).t)))
+  T.exc_parents['ValueError'] = 'Exception'
+  T.exc_parents['_DirectiveError'] = 'Exception'
+  Dis = S.DictOf(S.STR, LS)
+  T.bind_obj(PY, 'Director', collections.OrderedDict(
+      _disables=Dis, _ignore=LS, _errorlog=ELog, _filename=S.STR, return_lines=S.SetOf(S.INT), _function_ranges=FR))
+  T.assumptions += [
+      'second theory (Director): a _LineSet is a value held in Director._disables; distinct keys hold distinct objects (only the defaultdict factory inserts)',
+      'A-DEFAULTDICT: `self._disables` (collections.defaultdict(_LineSet)) is modelled as a dict in which every key is present; a key that '
+      'was never touched holds an empty _LineSet (member is False everywhere -- proved for _LineSet.__init__ in the first theory)',
+      'the contracts of _LineSet.set_line / start_range / __contains__ used at the call sites are the clauses proved in the first theory',
+      'errorlog.is_valid_error_name is a pure predicate; errorlog.invalid_directive has no effect on the line sets; line_range.start_line is a stable read',
+      'error.line / error.set_line are modelled by one ghost variable; _BlockRanges.find_outermost is an uninterpreted function of the line',
+  ]
+  ls = collections.OrderedDict
+  T.add(Contract(PY, '_LineSet.set_line', ls(self=LS, line=S.INT, membership=S.BOOL), mutates=('self',), verify=False,
+                 requires=['RI(self)'],
+                 ensures=['RI(self)', 'same(self._transitions, old(self._transitions))',
+                          'all(member(self, q) == ite(q == line, membership, member(old(self), q)) for q in every("Int"))',
+                          'all(has_line(self, q) == (q == line or has_line(old(self), q)) for q in every("Int"))'],
+                 note='proved in the first theory (view clauses)'))
+  T.add(Contract(PY, '_LineSet.start_range', ls(self=LS, line=S.INT, membership=S.BOOL), mutates=('self',), verify=False,
+                 requires=['RI(self)', 'line >= 0'],
+                 raises={'ValueError': 'len(self._transitions) > 0 and line < self._transitions[len(self._transitions) - 1]'},
+                 ensures=['RI(self)', 'same(self._lines, old(self._lines))',
+                          'all(implies(not has_line(self, q), member(self, q) == ite(q >= line, membership, member(old(self), q))) for q in every("Int"))',
+                          'all(implies(has_line(self, q), member(self, q) == member(old(self), q)) for q in every("Int"))'],
+                 note='proved in the first theory (view clauses)'))
+  T.add(Contract(PY, '_LineSet.__contains__', ls(self=LS, line=S.INT), verify=False,
+                 requires=['RI(self)'], ensures=['result == member(self, line)'], result=S.BOOL,
+                 note='proved in the first theory'))
+  me = ('obj', 'Director')
+  T.add(Contract(PY, 'Director._adjust_line_number_for_pytype_directive',
+                 ls(self=me, line=S.INT, error_class=S.STR, line_range=LRange),
+                 ensures=['result == (start_line(line_range) if error_class in _ALL_ADJUSTABLE_ERRORS else line)'], result=S.INT))
+  allkeys = 'all(E in self._disables for E in every("Str"))'
+  allri = 'all(RI(self._disables[E]) for E in every("Str"))'
+  eff = '(%s and (E == "*" or valid_name(E)) and (not is_call(line_range) or E in _FUNCTION_CALL_ERRORS))'
+  adj = '(start_line(line_range) if E in _ALL_ADJUSTABLE_ERRORS else line)'
+  closed_new = 'ite(q == line or q == %s, disable, member(old(self._disables)[E], q))' % adj
+  open_new = ('ite(has_line(old(self._disables)[E], q), member(old(self._disables)[E], q),'
+              ' ite(q >= line, disable, member(old(self._disables)[E], q)))')
+
+  def post(done):
+    return ['all(all(member(self._disables[E], q) == ite(%s, ite(open_ended, %s, %s), member(old(self._disables)[E], q))'
+            ' for q in every("Int")) for E in every("Str"))' % (eff % done, open_new, closed_new)]
+  frame = ['same(self._ignore, old(self._ignore))', allkeys, allri]
+  T.add(Contract(
+      PY, 'Director._process_disable',
+      ls(self=me, line=S.INT, line_range=LRange, open_ended=S.BOOL, values=S.SetOf(S.STR), disable=S.BOOL),
+      requires=[allkeys, allri, 'line >= 0'],
+      # the property's statement at this level: the directive changes the verdict for the named error classes on its own line
+      # (and the statement's first line, finding F6) -- or from its line on when open-ended -- and for nothing else
+      ensures=post('E in values') + frame,
+      raises={'_DirectiveError': 'len(values) == 0'},
+      may_raise=('ValueError',),
+      loops={0: Loop(post('any(S_[j] == E for j in range(i))') + frame + [
+          # per-line entries only grow, and only on this line / the adjusted line (needed for the open-ended clause of later iterations)
+      ], index='i', seq='S_')},
+      ghost={}))
+  T.add(Contract(
+      PY, 'Director.filter_error', ls(self=me, error=Err),
+      requires=[allkeys, allri, 'RI(self._ignore)'],
+      ensures=[
+          # errors of other files or without a line are always reported
+          'implies(line0(error) is None or error.filename != self._filename, result)',
+          # otherwise: reported iff the line the error ends up on (after the implicit-return adjustment; 0 = below the file) is subject to
+          # no `type: ignore`, no disable=* and no disable of its own class
+          'implies(not (line0(error) is None or error.filename != self._filename), result == (not ('
+          'member(self._ignore, line_now(error) or sys.maxsize) or member(self._disables["*"], line_now(error) or sys.maxsize)'
+          ' or member(self._disables[error.name], line_now(error) or sys.maxsize))))',
+          # the line is only ever moved for an implicit `return None` (bad-return-type at a line without a return statement)
+          'implies(not (error.name == "bad-return-type" and line0(error) is not None and line0(error) not in self.return_lines), same(line_now(error), line0(error)))',
+          'same(self._disables, old(self._disables)) and same(self._ignore, old(self._ignore))',
+      ],
+      ghost={'cur_line': S.Opt(S.INT)}, result=S.BOOL))
+  return T
+
+
 SURROUND = ['Director._process_disable / _process_type / filter_error (dict of mutable _LineSet objects: bounded VM sweep only)',
             'directors/parser.py (comment grouping, logical line ranges)', 'the VM\'s choice of the reported line', 'ErrorLog._add wiring',
             'abstract_utils.eval_expr (errors of separately compiled annotation strings must not be matched against the file\'s directives)']
@@ -117,4 +265,17 @@ MUTANTS = [
     dict(name='start_range_lt_to_le', file=PY,
          old="    if line < last:\n      raise ValueError", new="    if line <= last:\n      raise ValueError"),
     dict(name='set_line_inverted', file=PY, old="    self._lines[line] = membership\n", new="    self._lines[line] = not membership\n"),
+    # Director (second theory)
+    dict(name='dir_no_final_line', file=PY, old="          lines.set_line(final_line, disable)\n", new="          pass\n"),
+    dict(name='dir_no_own_line', file=PY, old="            lines.set_line(line, disable)\n", new="            pass\n"),
+    dict(name='dir_open_inverted', file=PY, old="          lines.start_range(line, disable)\n", new="          lines.start_range(line, not disable)\n"),
+    dict(name='dir_keep_inverted', file=PY, old="        return error_name in _FUNCTION_CALL_ERRORS\n", new="        return error_name not in _FUNCTION_CALL_ERRORS\n"),
+    dict(name='dir_adjust_never', file=PY, old="    if error_class not in _ALL_ADJUSTABLE_ERRORS:\n      return line\n    return line_range.start_line\n",
+         new="    return line\n"),
+    dict(name='dir_wrong_key', file=PY, old="        lines = self._disables[error_name]\n", new="        lines = self._disables[_ALL_ERRORS]\n"),
+    dict(name='filter_drop_star', file=PY, old="        and line not in self._disables[_ALL_ERRORS]\n", new=""),
+    dict(name='filter_or', file=PY, old="        and line not in self._disables[error.name]\n", new="        or line not in self._disables[error.name]\n"),
+    dict(name='filter_other_file_silenced', file=PY, old="    if error.filename != self._filename or error.line is None:\n      return True\n",
+         new="    if error.line is None:\n      return True\n"),
+    dict(name='filter_adjust_all_errors', file=PY, old='        error.name == "bad-return-type"\n        and error.opcode_name', new='        error.opcode_name'),
 ]
